@@ -62,9 +62,11 @@ class Executor:
         Returns:
             Executor.
         """
+        # every address is resolved before anything is stored: a batch that is rejected leaves sizes and overrides alone
         for cell in cells:
             handle_cell(cell, self._titles)
 
+        for cell in cells:
             sheet = cell.title
             row = cell.row + 1
             column = cell.column + 1
